@@ -404,8 +404,9 @@ fn gen_stream(rng: &mut Rng) -> Vec<u8> {
                 // a multi-kilobyte or empty literal
                 let len = *rng.pick(&[0usize, 0, 1, 4000, 9000, 20000]);
                 s.extend_from_slice(format!("* {} FETCH (BODY[] {{{}}}\r\n", 1 + rng.below(99), len).as_bytes());
+                let pat: &[u8] = *rng.pick(&[&b"abc\r\n)* 1 OK\r\n{3}\r\n"[..], &b"xy{4096}\r\n"[..], &b"{99999}\r\nA0001 OK done\r\n"[..], &b"\"(\\"[..]]);
                 for k in 0..len {
-                    s.push(b"abc\r\n)* 1 OK\r\n{3}\r\n"[k % 18]);
+                    s.push(pat[k % pat.len()]);
                 }
                 s.extend_from_slice(b")\r\n");
             }
@@ -483,6 +484,22 @@ pub fn framed_main(args: &[String]) {
                 let nr = rng.chance(1, 2);
                 println!("{}", run_framed(&stream, chunked(&stream, &[a, b], &mut rng, eof, nr), polls));
             }
+        }
+        // cuts at protocol-looking places: right after every "}" CR LF and every CR LF (also inside literals)
+        let mut special: Vec<usize> = vec![];
+        for p in 2..stream.len() {
+            if stream[p - 1] == b'\n' && stream[p - 2] == b'\r' {
+                special.push(p);
+                special.push(p - 1);
+            }
+        }
+        for _ in 0..special.len().min(16) {
+            let c = *rng.pick(&special);
+            let mut reads = vec![Rd::Chunk(stream[..c].to_vec()), Rd::NotReady, Rd::Chunk(stream[c..].to_vec()), Rd::NotReady];
+            if rng.chance(1, 2) {
+                reads.push(Rd::Eof);
+            }
+            println!("{}", run_framed(&stream, reads, polls));
         }
         for _ in 0..4 {
             let ncuts = if stream.len() < 600 && rng.chance(1, 3) { stream.len() } else { 1 + rng.below(30) };
